@@ -1,5 +1,5 @@
 (* Correspondence for the static checker and the lister. *)
-From DV Require Export Model.Services Corr.CheckInst.
+From DV Require Export Model.Services Corr.CheckInst Base.RegexEsc.
 Local Open Scope string_scope.
 
 Definition L (c : N) : re := Chr (CLit c).
